@@ -408,6 +408,11 @@ def gen_request(rng):
             case['ims'] = gen_cond_date(rng, lm_text, mt)
         if rng.random() < p:
             case['ius'] = gen_cond_date(rng, lm_text, mt)
+    # If-Range: not implemented by the code and not part of the statement; it must change nothing
+    if rng.random() < (0.25 if case.get('range') else 0.04):
+        case['ifr'] = rng.choice([cur_etag or '"x"', other_etag(rng, cur_etag), lm_text or httpdate(0),
+                                  httpdate(case['mtime'] + 86400) if isinstance(case['mtime'], int) else 'x',
+                                  'W/' + (cur_etag or '"x"'), '*', '', 'yesterday'])
     return case
 
 
@@ -528,7 +533,9 @@ def enum_extras_table():
         conds = [{}, {'inm': tag}, {'im': '"other"'}, {'im': tag, 'inm': '"a"'}]
         if static and v['kind'] != 'bio':
             conds += [{'ims': lm}, {'range': 'bytes=2-5'}, {'range': 'bytes=0-0,3-4'}, {'range': 'bytes=20-'},
-                      {'range': 'bytes=2-5', 'inm': tag}]
+                      {'range': 'bytes=2-5', 'inm': tag}, {'range': 'bytes=2-5', 'ifr': tag},
+                      {'range': 'bytes=2-5', 'ifr': '"stale"'}, {'range': 'bytes=2-5', 'ifr': lm},
+                      {'range': 'bytes=2-5', 'ifr': httpdate(mtime - 1)}, {'ifr': '"stale"'}]
         for stream in (0, 1):
             for method in ('GET', 'HEAD', 'POST'):
                 if v['kind'] in ('tool', 'index') and (method == 'POST') != (v.get('missing') == 'post'):
